@@ -650,7 +650,9 @@ impl Translator {
                         SolvedType::Float => {
                             self.emit(st, Instr::AddFloat(Reg::Top, Reg::Top, Reg::Top))
                         }
-                        _ => unreachable!(),
+                        _ => {
+                            helper(mono, "prelude.Num.add");
+                        }
                     },
                     BinaryOperator::Subtract => match arg1_ty {
                         SolvedType::Int => {
@@ -659,7 +661,9 @@ impl Translator {
                         SolvedType::Float => {
                             self.emit(st, Instr::SubFloat(Reg::Top, Reg::Top, Reg::Top))
                         }
-                        _ => unreachable!(),
+                        _ => {
+                            helper(mono, "prelude.Num.subtract");
+                        }
                     },
                     BinaryOperator::Multiply => match arg1_ty {
                         SolvedType::Int => {
@@ -668,7 +672,9 @@ impl Translator {
                         SolvedType::Float => {
                             self.emit(st, Instr::MulFloat(Reg::Top, Reg::Top, Reg::Top))
                         }
-                        _ => unreachable!(),
+                        _ => {
+                            helper(mono, "prelude.Num.multiply");
+                        }
                     },
                     BinaryOperator::Divide => match arg1_ty {
                         SolvedType::Int => {
@@ -677,7 +683,9 @@ impl Translator {
                         SolvedType::Float => {
                             self.emit(st, Instr::DivFloat(Reg::Top, Reg::Top, Reg::Top))
                         }
-                        _ => unreachable!(),
+                        _ => {
+                            helper(mono, "prelude.Num.divide");
+                        }
                     },
                     BinaryOperator::GreaterThan => match arg1_ty {
                         SolvedType::Int => {
@@ -769,7 +777,9 @@ impl Translator {
                         SolvedType::Float => {
                             self.emit(st, Instr::PowFloat(Reg::Top, Reg::Top, Reg::Top))
                         }
-                        _ => unreachable!(),
+                        _ => {
+                            helper(mono, "prelude.Num.power");
+                        }
                     },
                     BinaryOperator::Format => {
                         let func_def = self.statics.get_free_function_decl("prelude.format_append");
@@ -1537,6 +1547,19 @@ impl Translator {
         }
     }
 
+    // call a binary method of the Num interface on two operands of type `ty`
+    fn translate_num_method_call(
+        &self,
+        st: &mut TranslatorState,
+        mono: &MonomorphEnv,
+        method_name: &str,
+        ty: &SolvedType,
+    ) {
+        let (iface_def, method) = self.statics.get_iface_method_decl(method_name);
+        let func_ty = Type::Function(vec![ty.clone(), ty.clone()], ty.clone().into());
+        self.translate_iface_method_call_helper(st, mono, &iface_def, method as u16, &func_ty);
+    }
+
     fn wrapper_header(&self, st: &mut TranslatorState, nargs: usize, for_function_body: bool) {
         if for_function_body {
             for i in (0..nargs as i16).rev() {
@@ -2300,7 +2323,12 @@ impl Translator {
                                             Instr::AddFloat(Reg::Top, Reg::Top, Reg::Top),
                                         );
                                     }
-                                    _ => unreachable!(),
+                                    _ => self.translate_num_method_call(
+                                        st,
+                                        mono,
+                                        "prelude.Num.add",
+                                        &rvalue_ty,
+                                    ),
                                 };
                             }
                             AssignOperator::MinusEq => {
@@ -2314,7 +2342,12 @@ impl Translator {
                                             Instr::SubFloat(Reg::Top, Reg::Top, Reg::Top),
                                         );
                                     }
-                                    _ => unreachable!(),
+                                    _ => self.translate_num_method_call(
+                                        st,
+                                        mono,
+                                        "prelude.Num.subtract",
+                                        &rvalue_ty,
+                                    ),
                                 };
                             }
                             AssignOperator::StarEq => {
@@ -2328,7 +2361,12 @@ impl Translator {
                                             Instr::MulFloat(Reg::Top, Reg::Top, Reg::Top),
                                         );
                                     }
-                                    _ => unreachable!(),
+                                    _ => self.translate_num_method_call(
+                                        st,
+                                        mono,
+                                        "prelude.Num.multiply",
+                                        &rvalue_ty,
+                                    ),
                                 };
                             }
                             AssignOperator::SlashEq => {
@@ -2342,7 +2380,12 @@ impl Translator {
                                             Instr::DivFloat(Reg::Top, Reg::Top, Reg::Top),
                                         );
                                     }
-                                    _ => unreachable!(),
+                                    _ => self.translate_num_method_call(
+                                        st,
+                                        mono,
+                                        "prelude.Num.divide",
+                                        &rvalue_ty,
+                                    ),
                                 };
                             }
                             AssignOperator::ModEq => {
